@@ -225,7 +225,7 @@ impl CallResultError {
 //@ end
 
 //@ lift crates/air-lib/trace-handler/src/merger/call_merger/utils.rs :: fn merge_executed
-//@ props C05 C07 C08 C09
+//@ props C05 C07 C08 C09 C12
 //@ ret r
 //@ spec
     ensures
@@ -239,7 +239,7 @@ impl CallResultError {
 //@ end
 
 //@ lift crates/air-lib/trace-handler/src/merger/call_merger.rs :: fn merge_call_results
-//@ props C05 C07 C08 C09
+//@ props C05 C07 C08 C09 C12
 //@ ret r
 //@ spec
     ensures
